@@ -99,6 +99,44 @@ type c05Gen struct {
 	big   bool
 }
 
+// wide32 / wide64 / wideRange replace a small value by a boundary value now and
+// then (fields wider than what small test values exercise).
+func wide32(r *rand.Rand, small uint32) uint32 {
+	switch r.Intn(6) {
+	case 0:
+		return math.MaxInt32
+	case 1:
+		return 1<<16 + small
+	}
+	return small
+}
+
+func wide64(r *rand.Rand, small uint64) uint64 {
+	switch r.Intn(6) {
+	case 0:
+		return 1<<32 + small
+	case 1:
+		return 1<<62 + small
+	}
+	return small
+}
+
+func wideRange(r *rand.Rand, from, to uint64) (uint64, uint64) {
+	switch r.Intn(8) {
+	case 0:
+		return 0, to
+	case 1:
+		return from, 1<<32 + to
+	case 2:
+		return 1<<32 + from, 1<<40 + to
+	case 3:
+		return from, math.MaxUint64 - 1
+	case 4:
+		return 1 << 62, 1<<63 + to
+	}
+	return from, to
+}
+
 func (g *c05Gen) opid() string {
 	g.n++
 	return fmt.Sprintf("%s%s-%d", sim.OpIDPrefix, g.pref, g.n)
@@ -134,21 +172,21 @@ func (g *c05Gen) genGet(ctx context.Context, skipBatch bool) (hrpc.Call, c05Spec
 	opts := []func(hrpc.Call) error{hrpc.Families(fams)}
 	from, to := uint64(0), uint64(math.MaxUint64)
 	if r.Intn(3) == 0 {
-		from, to = uint64(r.Intn(100)), uint64(200+r.Intn(1000))
+		from, to = wideRange(r, uint64(r.Intn(100)), uint64(200+r.Intn(1000)))
 		opts = append(opts, hrpc.TimeRangeUint64(from, to))
 	}
 	maxv := uint32(1)
 	if r.Intn(3) == 0 {
-		maxv = uint32(2 + r.Intn(5))
+		maxv = wide32(r, uint32(2+r.Intn(5)))
 		opts = append(opts, hrpc.MaxVersions(maxv))
 	}
 	limit, offset := uint32(math.MaxInt32), uint32(0)
 	if r.Intn(4) == 0 {
-		limit = uint32(1 + r.Intn(9))
+		limit = wide32(r, uint32(1+r.Intn(9)))
 		opts = append(opts, hrpc.MaxResultsPerColumnFamily(limit))
 	}
 	if r.Intn(4) == 0 {
-		offset = uint32(1 + r.Intn(9))
+		offset = wide32(r, uint32(1+r.Intn(9)))
 		opts = append(opts, hrpc.ResultOffset(offset))
 	}
 	cache := true
@@ -164,7 +202,7 @@ func (g *c05Gen) genGet(ctx context.Context, skipBatch bool) (hrpc.Call, c05Spec
 	}
 	prio := uint32(0)
 	if r.Intn(4) == 0 {
-		prio = uint32(1 + r.Intn(200))
+		prio = wide32(r, uint32(1+r.Intn(200)))
 		opts = append(opts, hrpc.Priority(prio))
 	}
 	cons := "default"
@@ -292,6 +330,12 @@ func (g *c05Gen) genMutate(ctx context.Context, skipBatch bool) (hrpc.Call, c05S
 	ttl := int64(-1)
 	if r.Intn(4) == 0 {
 		ttl = int64(1 + r.Intn(100000))
+		switch r.Intn(4) {
+		case 0: // beyond 32 bits of milliseconds (49.7 days)
+			ttl = int64(1)<<32 + int64(r.Intn(1000))
+		case 1:
+			ttl = int64(365*24*3600*1000) * int64(1+r.Intn(20)) // years
+		}
 		opts = append(opts, hrpc.TTL(time.Duration(ttl)*time.Millisecond))
 	}
 	if skipBatch {
@@ -365,12 +409,12 @@ func (g *c05Gen) genScan(ctx context.Context) (*hrpc.Scan, c05Spec) {
 	}
 	nrows := uint32(math.MaxInt32)
 	if r.Intn(2) == 0 {
-		nrows = uint32(1 + r.Intn(50))
+		nrows = wide32(r, uint32(1+r.Intn(50)))
 		opts = append(opts, hrpc.NumberOfRows(nrows))
 	}
 	maxSize := uint64(2097152)
 	if r.Intn(3) == 0 {
-		maxSize = uint64(1 + r.Intn(1<<20))
+		maxSize = wide64(r, uint64(1+r.Intn(1<<20)))
 		opts = append(opts, hrpc.MaxResultSize(maxSize))
 	}
 	fams := map[string][]string{}
@@ -380,12 +424,12 @@ func (g *c05Gen) genScan(ctx context.Context) (*hrpc.Scan, c05Spec) {
 	}
 	from, to := uint64(0), uint64(math.MaxUint64)
 	if r.Intn(3) == 0 {
-		from, to = uint64(r.Intn(50)), uint64(100+r.Intn(50))
+		from, to = wideRange(r, uint64(r.Intn(50)), uint64(100+r.Intn(50)))
 		opts = append(opts, hrpc.TimeRangeUint64(from, to))
 	}
 	maxv := uint32(1)
 	if r.Intn(3) == 0 {
-		maxv = uint32(2 + r.Intn(3))
+		maxv = wide32(r, uint32(2+r.Intn(3)))
 		opts = append(opts, hrpc.MaxVersions(maxv))
 	}
 	flt := "-"
@@ -401,7 +445,7 @@ func (g *c05Gen) genScan(ctx context.Context) (*hrpc.Scan, c05Spec) {
 	}
 	prio := uint32(0)
 	if r.Intn(4) == 0 {
-		prio = uint32(1 + r.Intn(100))
+		prio = wide32(r, uint32(1+r.Intn(100)))
 		opts = append(opts, hrpc.Priority(prio))
 	}
 	sc, err := hrpc.NewScanRange(ctx, []byte(g.table), start, stop, opts...)
